@@ -347,5 +347,9 @@ namespace OpenMEEG::GeometryIOs {
             ofs << std::endl;
         }
         ofs << std::endl;
+
+        ofs.close();
+        if (ofs.fail())
+            throw OpenMEEG::IOException(std::string("Error while writing the file ")+fname);
     }
 }
